@@ -573,8 +573,8 @@ func (w *vfSigWorld) vfEvalVerify(addrNames []string, idx []int, sigs [][65]byte
 
 // ---------------------------------------------------------------- hooks filled by the per-package files
 
-var vfQuorumFn func(int) int                // CalculateQuorum as linked into this package (nil in pkg/vaa)
-var vfExplorerVerifyFn vfVerifyFn           // explorer-backend verifyVAA (nil elsewhere)
+var vfQuorumFn func(int) int                                      // CalculateQuorum as linked into this package (nil in pkg/vaa)
+var vfExplorerVerifyFn vfVerifyFn                                 // explorer-backend verifyVAA (nil elsewhere)
 var vfProcBodyFn func(t *testing.T, vecs []vfVector, tr *vhTrace) // node/pkg/processor: handleMessage
 
 // ---------------------------------------------------------------- vectors exported by TLC
